@@ -386,9 +386,18 @@ def hermes_state(ctx, rule):
     fm = [sh for l in sorted(h.var_names) for sh, _, _ in q.def_shapes(h, l, {}) if "closure:decode_hermes::{closure#0}" in sh and sh.startswith("Iterator::collect(")]
     ctx.check(len(fm) == 1 and q.wild("Iterator::collect(Iterator::map(slice::iter(*x_facebook_sources*),closure:decode_hermes::{closure#0}))", fm[0]), rule, h.path, "one-per-source",
               "one function map (or None) per x_facebook_sources entry, in order", detail=str(fm)[:200])
+    # ... and that list is what the map keeps: stored as collected, never cleared, truncated or edited afterwards
+    fml = [l for l in sorted(h.var_names) for sh, _, _ in q.def_shapes(h, l, {}) if "closure:decode_hermes::{closure#0}" in sh and sh.startswith("Iterator::collect(")]
+    lits = [h.expr_of_rvalue(s_["rv"]) for bi, si, s_, it in h.locations() if not it and s_["k"] == "assign" and s_["rv"]["k"] == "agg" and s_["rv"].get("adt") == "hermes::SourceMapHermes"]
+    if ctx.check(len(fml) == 1 and len(lits) == 1, rule, h.path, "function_maps:stored", "decode_hermes builds one SourceMapHermes from the collected function maps"):
+        from rules.common import mut_borrow_users
+        same = q.root_local(lits[0].field("function_maps")) == fml[0]
+        users = sorted(set(c for _, c in mut_borrow_users(h, fml[0])))
+        ctx.check(same and not users, rule, h.path, "function_maps:as-collected", "the function maps are stored exactly as collected (one per entry; not cleared or edited when the table and `sources` differ in length)", detail=str(users))
 
 
 def hermes_lookup(ctx, rule):
+    from rules.common import facts_keys
     b = ctx.body(SCOPE)
     fn = b.path
     fmv = [l for l in sorted(b.var_names) if b.var_names[l] not in ("val", "residual") and any(sh.startswith("try(Option::as_ref(try(slice::get(arg1.function_maps,") for sh, _, _ in q.def_shapes(b, l, {}))]
@@ -417,6 +426,20 @@ def hermes_lookup(ctx, rule):
     nm = [q.shape(b.expr_of_call(t), roles) for bi, t in b.calls() if q.nice(t.get("callee")) == "slice::get" and ".names" in q.shape(b.expr_of_call(t), roles)]
     ok = len(nm) == 1 and q.wild("slice::get(fm.names,cast<usize>(try(utils::greatest_lower_bound(*)).1.name_index))", nm[0])
     ctx.check(ok, rule, fn, "name", "the name is names.get(mapping.name_index) (non-panicking)", detail=str(nm)[:200])
+    # nothing is answered only for the reviewed reasons: no function map for the source, line + 1 not representable, no
+    # entry at or before the position, name index out of range - and never for a reason of its own (e.g. who made the token)
+    from rules.common import opt_fact as _of
+    REASONS = ("slice::get(arg1.function_maps,", "Option::as_ref(", "u32::checked_add(arg2.raw.src_line,1)", "utils::greatest_lower_bound(", "slice::get(fm.names,")
+    for sh, site, _e in q.def_shapes(b, 0, roles):
+        if sh.startswith("FromResidual::from_residual(break(Try::branch("):
+            inner = sh[len("FromResidual::from_residual(break(Try::branch("):]
+            ok = inner.startswith(REASONS[:4])
+        elif sh == "Option::None{}":
+            ks = [k for k in facts_keys(b, site[0], roles) if k[0] in ("variant_in", "variant_not_in")]
+            ok = bool(ks) and any(str(k[1]).replace("Try::branch(", "").startswith(REASONS) for k in ks)
+        else:
+            ok = sh.startswith(("Option::map(slice::get(fm.names,", "Option::Some{", "slice::get(fm.names,", "try(", "Option::and_then(", "Option::map("))
+        ctx.check(ok, rule, fn, "none:only-reviewed", "nothing is returned only when the source has no function map, no entry lies at or before the position or the name index does not resolve", ctx.site(b, *site), detail=sh[:200])
     g = ctx.body("hermes::SourceMapHermes::get_original_function_name")
     calls = [q.shape(g.expr_of_call(t)) for bi, t in g.calls() if t.get("resolved_local")]
     LK = "SourceMap::lookup_token(arg1.sm,0,arg2)"
